@@ -191,11 +191,14 @@ var sweepSeeds = []string{
 	"http://xn--9ca.test/", "http://h%41.test/", "http://h./", "sc://\u00e9/",
 	"http://h/?a=b&c=d", "http://h/#a b", "HTTP://H/", "http:\\\\h\\p", "http:h/p", "http:/h/p",
 	"  http://h/p  ", "ht\ttp://h/p", "http://h:/p", "http://h:0080/p", "http://:@h/", "http://@h/", "http://a:b:c@h/",
+	// slot seeds: the placeholder is replaced by every token, which fills each syntactic slot exactly
+	"\u00a7://h/", "http://\u00a7@h/", "http://u:\u00a7@h/", "http://\u00a7/", "http://h:\u00a7/", "http://h/\u00a7", "http://h/a/\u00a7/b", "http://h/?\u00a7", "http://h/#\u00a7",
+	"foo://\u00a7/", "foo:\u00a7", "file://\u00a7/", "file:///\u00a7", "http://1.2.3.\u00a7/", "http://\u00a7.2.3.4/", "http://[::\u00a7]/", "http://[1:2:3:4:5:6:1.2.3.\u00a7]/", "http://h/%\u00a7", "\u00a7",
 }
 
 // forEachParseInput enumerates the declared (input, base) spaces shared by C01, C03, C04, C15 and C19:
 // raw-nobase = Prefixes x Sigma^<=k; raw-base = Sigma^<=kb x Bases; product = slot product with at most t
-// deviating slots x productBases; ascii-sweep = every one of 140 code points (all ASCII + boundary non-ASCII) inserted/substituted at every position of 41 seeds; edit1-wpt = the WPT inputs (with their bases) and their edit-distance-1 ball.
+// deviating slots x productBases; ascii-sweep = every one of 140 code points (all ASCII + boundary non-ASCII), every string/character literal of the current library source and v-1, v, v+1 of every integer literal, inserted/substituted at every position of 60 seeds (41 URLs exercising every component + 19 slot seeds whose placeholder is replaced by each token); edit1-wpt = the WPT inputs (with their bases) and their edit-distance-1 ball.
 func forEachParseInput(c *fw.Ctx, k, kb, t int, longEdits bool, f func(label, base, input string)) {
 	c.Space("raw-nobase")
 	c.R.Spaces["raw-nobase"].Size = enum.RawSize(len(enum.General), k) * int64(len(Prefixes))
@@ -248,6 +251,13 @@ func forEachParseInput(c *fw.Ctx, k, kb, t int, longEdits bool, f func(label, ba
 		}
 		f("ascii-sweep", base, seed)
 		enum.Edits(seed, sweepSigma, func(s string) { f("ascii-sweep", base, s) })
+		// the same with every string / character literal and every integer bound (v-1, v, v+1) of the current
+		// library source as the inserted token
+		strs, ints := sourceLiterals()
+		enum.Edits(seed, strs, func(s string) { f("ascii-sweep", base, s) })
+		if si < 30 || si >= 41 {
+			enum.Edits(seed, ints, func(s string) { f("ascii-sweep", base, s) })
+		}
 	}
 	c.Space("edit1-wpt")
 	for _, v := range model.WPTVectors() {
